@@ -382,7 +382,8 @@ class BundleFlattener(ElabPass):
             # Note at this point in elaboration, these Anon-Bundles are the sole remaining place `PortRef`s can hide.
             # They are also the last place where `BundleRef`s will be resolved,
             # although the others just have been, earlier in this elaborator pass.
-            if isinstance(attr, (BundleRef, PortRef)):
+            # (A port-reference may itself resolve to a bundle-reference, so this may take more than one step.)
+            while isinstance(attr, (BundleRef, PortRef)):
                 attr = self.resolve_bundleref(attr)
 
             if isinstance(attr, NoConn):  # Invalid
